@@ -450,6 +450,48 @@ def history_pass(ctx):
             ctx.diverge(f'history {h} `{line}`: model `{got[:300]}` vs static implementation `{want[:300]}`', rep)
 
 
+def constructor_pass(ctx):
+    """instances built with keyword arguments — the way generated code and loaders build them: the dynamic constructor
+    and the constructor pyecoregen writes for a static class take the same values, falsy ones (0, '', False) included"""
+    n = 60 if ctx.quick() else 1000
+    for h in range(n):
+        rng = common.sub_rng(ctx.seed, 'C13', 'ctor', h)
+        mm = store.gen_mm(rng)
+        mm.dflt = {}
+        for f in mm.feats:
+            if not f.ref and not f.many and rng.random() < .6:
+                mm.dflt[f.fid] = {'EInt': rng.choice([7, -1]), 'EString': 'dflt', 'EBoolean': True}[f.typ[1]]
+        mm.with_init = True
+        wd = store.World(mm, builder=lambda m: build_dynamic(m, DYN_STYLES[h % len(DYN_STYLES)]))
+        ws = store.World(mm, builder=static_render.builder('metaclass'))     # (zero-argument super() does not survive @EMetaclass rebuilding the class)
+        rep = {'case': h, 'pass': 'constructor', 'metamodel': mm.lines()}
+        for (cid, abstract, _s) in mm.classes:
+            if abstract:
+                continue
+            attrs = [f for f in mm.feats_of(cid) if not f.ref and not f.many]
+            if not attrs:
+                continue
+            for _ in range(3):
+                kw = {}
+                for f in attrs:
+                    if rng.random() < .7:
+                        kw[f.name] = rng.choice({'EInt': [0, 0, 1, 7, -1], 'EString': ['', '', 'a', 'dflt'], 'EBoolean': [False, False, True]}[f.typ[1]])
+                outs = []
+                for w in (wd, ws):
+                    cls = w.classes[cid]
+                    try:
+                        o = (cls.python_class if w is ws else cls)(**kw)
+                        outs.append([(f.name, o.eGet(f.name), o.eIsSet(f.name)) for f in attrs])
+                    except Exception as e:
+                        outs.append('raised ' + type(e).__name__)
+                ctx.evaluations += 1
+                ctx.nontriv(('ctor', h, cid, tuple(sorted(kw))))
+                if outs[0] != outs[1]:
+                    ctx.violate({'clause': 'constructor-differs'},
+                                f'C{cid}(**{kw}): (feature, value, eIsSet) dynamic {outs[0]} vs static {outs[1]}', dict(rep, kwargs=repr(kw), cls=cid))
+                    break
+
+
 def run(ctx):
     common.use_repo()
     ctx.rule = ('(a) generated metamodel descriptions (2-5 classes, inheritance incl. diamonds, abstract classes, attributes with '
@@ -464,6 +506,7 @@ def run(ctx):
                 'non-trivial & distinct = classes with features or methods described + histories run on all renderings')
     describe_pass(ctx)
     history_pass(ctx)
+    constructor_pass(ctx)
     ctx.assumptions += ['operations are compared by name, parameter names in order and required flags; the reflected `self` parameter of a '
                         'static method is written explicitly on the dynamic side (a dynamic EOperation without it describes the same method)',
                         'order of notifications across different (notifier, feature) pairs is not compared (delete() walks a set)']
